@@ -121,6 +121,21 @@ def build_model(g: dict[str, Any], opset: int = 21):
             shapes[out] = tuple(1 if i in axes else d for i, d in enumerate(shapes[ins[0]]))
             metas[out] = [1 if i in axes else d for i, d in enumerate(metas[ins[0]])]
             dts[out] = dts[ins[0]]
+        elif op == "Capture":
+            # an If node (nested `depth` levels) whose innermost branches READ the outer value without it being an input
+            src = ins[0]
+            code = DT[dts[src]][0]
+
+            def branch(depth, tag):
+                if depth == 1:
+                    inner = oh.make_node("Identity" if tag == "t" else "Neg", [src], [f"{out}_{tag}{depth}"], name=f"{name}_{tag}{depth}")
+                    return oh.make_graph([inner], f"{name}_{tag}{depth}_g", [], [U.vi(f"{out}_{tag}{depth}", code, list(metas[src]))])
+                sub = oh.make_node("If", [f"{out}_cond"], [f"{out}_{tag}{depth}"], name=f"{name}_{tag}{depth}_if", then_branch=branch(depth - 1, tag + "t"), else_branch=branch(depth - 1, tag + "e"))
+                return oh.make_graph([sub], f"{name}_{tag}{depth}_g", [], [U.vi(f"{out}_{tag}{depth}", code, list(metas[src]))])
+
+            inits.append(U.const(f"{out}_cond", np.array(True)))
+            nodes.append(oh.make_node("If", [f"{out}_cond"], [out], name=name, then_branch=branch(int(nd["depth"]), "t"), else_branch=branch(int(nd["depth"]), "e")))
+            shapes[out], metas[out], dts[out] = shapes[src], metas[src], dts[src]
         elif op == "Cast":
             nodes.append(oh.make_node("Cast", ins, [out], to=DT[nd["to"]][0], name=name))
             shapes[out], metas[out], dts[out] = shapes[ins[0]], metas[ins[0]], nd["to"]
@@ -159,6 +174,8 @@ def classify(g: dict[str, Any]) -> dict[str, Any]:
         sig["nonscalar_side"] = any(c["side"] in ("vec", "full") for c in ch)
         sig["inverse"] = bool(par.get("inv"))
         sig["observed_intermediate"] = bool(par.get("to")) or bool(par.get("te"))
+        if par.get("te", 0) >= 3:
+            sig["captured_depth"] = par["te"] - 2
     elif g["kind"] in ("treduce", "addforest"):
         sig["inverse"] = bool(par.get("inv"))
         sig["observed_intermediate"] = bool(par.get("to")) or bool(par.get("te", 0))
@@ -167,7 +184,9 @@ def classify(g: dict[str, Any]) -> dict[str, Any]:
     elif g["kind"] in ("rpair", "idreshape"):
         sig.update({k: par[k] for k in par})
     elif g["kind"] == "rchain":
-        sig.update({"k": par["k"], "follow": bool(par["follow"]), "observed_intermediate": bool(par["to"])})
+        sig.update({"k": par["k"], "follow": bool(par["follow"]), "observed_intermediate": par["to"] == 1})
+        if par["to"] >= 2:
+            sig["captured_depth"] = par["to"] - 1
     elif g["kind"] == "castpair":
         sig.update({"src": par["src"], "mid": par["mid"], "observed_intermediate": bool(par["to"]) or bool(par["te"])})
     elif g["kind"] == "mulsig":
